@@ -563,6 +563,10 @@ func C09(c *fw.Ctx) {
 				return
 			}
 			a, b := findOut(base, "json"), findOut(res, "json")
+			if sig, what := onlyOneSerialises(a, b); sig != "" {
+				c.Violate("split-not-serialisable", fmt.Sprintf("split of %s: the unsplit document has a catalog, the split project is accepted but has none: %s", d.name, what), rp)
+				return
+			}
 			if a == nil || b == nil || a.Bytes == nil || b.Bytes == nil {
 				return
 			}
